@@ -127,6 +127,21 @@ class TourAdapter(RoutingAdapter):
                         ctx.count("%s/%s/batched_rows" % (self.name, vtag))
         return items
 
+    # ------------------------------------------------------------------ C06: corrupted solutions need no distance data
+    _light = False
+
+    def matrix_term(self, t):
+        """Coq matrix of a 2-D tensor; for the hand-built/corrupted-solution cases of C06 (the checkers and the
+        feasibility predicate never look at distances) a zero matrix of the same size keeps the case files small"""
+        return envh.zmatrix(torch.zeros_like(t) if self._light else t)
+
+    def extra_c06(self, ctx, tier, items):
+        self._light = True
+        try:
+            return super().extra_c06(ctx, tier, items)
+        finally:
+            self._light = False
+
     # ------------------------------------------------------------------ C05: spread the enumeration budget over the sizes
     def extra_c05(self, ctx, tier, items):
         """the base class enumerates the first few distinct instances it meets; hand them over round-robin over the
